@@ -31,6 +31,13 @@ func runC02(ctx *core.Ctx) {
 		switch i % 3 {
 		case 0:
 			c = genEvTumbling(ref, r, 30)
+			if i%2 == 0 {
+				// rows exactly on window boundaries together with an allowance shorter than the window: the
+				// previous window expires while the boundary row's own window is still open
+				for k := 0; k < 80 && !(c.Pattern == "boundary" && c.AlMs > 0 && c.AlMs < c.SizeMs); k++ {
+					c = genEvTumbling(ref, r, 100)
+				}
+			}
 		case 1:
 			c = genEvSliding(ref, r)
 		default:
@@ -195,8 +202,11 @@ func execC02Early(ctx *core.Ctx, c *evCase) {
 func genC02Late(ref core.CaseRef, r *rand.Rand) *evCase {
 	c := &evCase{CaseRef: ref, Feed: "step", Pattern: "lateupdate"}
 	c.Kind = pick(r, []string{"tumbling", "tumbling", "sliding", "session"})
-	if c.Kind == "tumbling" && r.Intn(2) == 0 {
-		c.Feed = "burst" // the too-late clause is decided from the emit log alone, so any schedule may be used
+	if r.Intn(2) == 0 {
+		// every clause is conditional on what had been observed when the late row's Emit started (or is decided
+		// from the emit log alone), so any schedule may be used; in a burst the late-update delivery of one row
+		// overlaps the firing caused by the row before it
+		c.Feed = "burst"
 	}
 	switch c.Kind {
 	case "tumbling":
@@ -464,6 +474,24 @@ func execC02Late(ctx *core.Ctx, c *evCase) {
 			}
 		default:
 			open++
+		}
+	}
+	// every on-time row is owed to some result, late updates or not (the sentinel pushed the watermark past
+	// everything and the engine went quiet)
+	for i, r := range c.Rows {
+		if !onTime[i] || r.G != "" {
+			continue
+		}
+		found := false
+		for _, d := range order {
+			if batches[d].ids[r.ID] {
+				found = true
+				break
+			}
+		}
+		if !found {
+			viol("late.on_time_row_lost", fmt.Sprintf("%s: on-time row id=%d ts=%d (watermark %d when it arrived) is in no delivered result although late updates were the only other activity; %d deliveries seen", c.Kind, r.ID, r.TS, wmAt[i], len(order)))
+			return
 		}
 	}
 	ctx.Count("late.rows_demanding_redelivery", int64(demanded))
